@@ -7,6 +7,42 @@ mod shim;
 mod world;
 
 use report::{Report, Shard, Tier};
+
+/// The process's allocator, with one knob: on a thread that sets `ALLOC_LIMIT`, any single request above the limit is
+/// refused (null), which is what an address-space limit, a cgroup or strict overcommit do to large requests.  Fallible
+/// reservations see an error; infallible ones abort the process (so the knob is only ever turned in a forked child).
+pub struct Gate;
+thread_local! {
+    pub static ALLOC_LIMIT: std::cell::Cell<usize> = const { std::cell::Cell::new(usize::MAX) };
+}
+fn alloc_limit() -> usize {
+    ALLOC_LIMIT.try_with(|c| c.get()).unwrap_or(usize::MAX)
+}
+unsafe impl std::alloc::GlobalAlloc for Gate {
+    unsafe fn alloc(&self, l: std::alloc::Layout) -> *mut u8 {
+        if l.size() > alloc_limit() {
+            return std::ptr::null_mut();
+        }
+        std::alloc::System.alloc(l)
+    }
+    unsafe fn dealloc(&self, p: *mut u8, l: std::alloc::Layout) {
+        std::alloc::System.dealloc(p, l)
+    }
+    unsafe fn alloc_zeroed(&self, l: std::alloc::Layout) -> *mut u8 {
+        if l.size() > alloc_limit() {
+            return std::ptr::null_mut();
+        }
+        std::alloc::System.alloc_zeroed(l)
+    }
+    unsafe fn realloc(&self, p: *mut u8, l: std::alloc::Layout, new_size: usize) -> *mut u8 {
+        if new_size > alloc_limit() {
+            return std::ptr::null_mut();
+        }
+        std::alloc::System.realloc(p, l, new_size)
+    }
+}
+#[global_allocator]
+static GLOBAL: Gate = Gate;
 use std::io::Write;
 
 fn probe() {
